@@ -32,6 +32,7 @@ pub struct FnSpec {
     pub letsplit: Vec<String>,
     pub letsplit_named: Vec<(String, String)>, // (`METHOD#k`, NAME)
     pub refop: Vec<String>,
+    pub bindarg: Vec<(String, usize, usize, String)>, // (callee, K-th statement-level call, arg index, name)
     pub props: Vec<String>,
     pub no_canary: BTreeSet<String>,
     pub argtype: BTreeMap<String, String>,
@@ -415,6 +416,15 @@ pub fn parse(text: &str) -> Result<Unit, String> {
                                 i += 2;
                             } else { f.letsplit.push(toks[i].to_string()); i += 1; }
                         }
+                    }
+                    "bindarg" => {
+                        // @bindarg CALLEE#K IDX NAME
+                        let parts: Vec<&str> = a.split_whitespace().collect();
+                        if parts.len() != 3 { return Err(format!("line {ln}: @bindarg CALLEE#K IDX NAME")); }
+                        let (callee, k) = parts[0].split_once('#').unwrap_or((parts[0], "1"));
+                        let k: usize = k.parse().map_err(|_| format!("line {ln}: @bindarg CALLEE#K"))?;
+                        let idx: usize = parts[1].parse().map_err(|_| format!("line {ln}: @bindarg IDX"))?;
+                        f.bindarg.push((callee.to_string(), k, idx, parts[2].to_string()));
                     }
                     "refop" => f.refop.extend(a.split_whitespace().map(String::from)),
                     "no-canary" => f.no_canary.extend(a.split_whitespace().map(String::from)),
